@@ -8,6 +8,8 @@ def text_edit(old, new):
         return src.replace(old, new, 1) if old in src else None
     return edit
 MUTANTS = [
+    Mutant('lrt_cutoff_from_base', 'src/pharmpy/tools/run.py', text_edit("co = 0.05 if lrt_df(parent_model, model) >= 0 else 0.01", "co = 0.05 if lrt_df(base_model, model) >= 0 else 0.01"), 'N6', 'direction taken from another pair'),
+    Mutant('bic_sigma_uncounted', 'src/pharmpy/modeling/results.py', text_edit("            fixedpars -= cursymbols\n            randpars |= cursymbols", "            fixedpars -= cursymbols\n            randpars |= param_symbols"), 'N7', 'sigma in neither group'),
     Mutant('aic_factor', R, edit_node('calculate_aic', lambda n, seg: isinstance(n, ast.Return), lambda seg: 'return likelihood + len(parameters)'), 'N1', 'factor 2 dropped'),
     Mutant('bic_swapped_counts', R, text_edit('penalty = len(theta_r) * math.log(nsubs) + len(theta_f) * math.log(nobs)', 'penalty = len(theta_r) * math.log(nobs) + len(theta_f) * math.log(nsubs)'), 'N1', 'nsubs/nobs swapped'),
     Mutant('bic_fixed_uses_ids', R, text_edit("penalty = len(parameters) * math.log(len(get_observations(model)))", "penalty = len(parameters) * math.log(len(get_ids(model)))"), 'N1', 'fixed BIC with individuals'),
